@@ -16,19 +16,23 @@ open(f"{dst}/patch.diff", "w").write(patch)
 shutil.copy(f"{wt}/demo.py", f"{dst}/demo.py")
 note = open(f"{wt}/note.md").read() if os.path.exists(f"{wt}/note.md") else ""
 results = {}
-subprocess.run(["git", "-C", "/repo", "apply", f"{dst}/patch.diff"], check=True)
-try:
-    for c in checks:
-        r = subprocess.run(["/verif/check", c, "--tier", "quick"], capture_output=True, text=True, cwd="/verif")
-        viol = [l for l in r.stdout.splitlines() if l.startswith("VIOLATION")]
-        obl = [l.strip()[:300] for l in r.stdout.splitlines() if l.startswith("  obligation")]
-        results[c] = {"exit": r.returncode, "violations": len(viol), "first_obligations": obl[:3],
-                      "summary": [l for l in r.stdout.splitlines() if l.startswith("[")][-1:]}
-finally:
-    subprocess.run(["git", "-C", "/repo", "checkout", "--", "."], check=True)
+import tempfile
+out = tempfile.mkdtemp(prefix="bbverif-out.")
+# the checks analyse the scratch worktree carrying the change (BBVERIF_REPO); /repo and the committed evidence are not touched
+chk = subprocess.run(["git", "-C", wt, "diff", "--quiet", "HEAD", "--", "tests"])
+for c in checks:
+    r = subprocess.run(["/verif/check", c, "--tier", os.environ.get("TIER", "quick")], capture_output=True, text=True, cwd="/verif",
+                       env=dict(os.environ, BBVERIF_REPO=wt, BBVERIF_OUT=out))
+    viol = [l for l in r.stdout.splitlines() if l.startswith("VIOLATION")]
+    obl = [l.strip()[:300] for l in r.stdout.splitlines() if l.startswith("  obligation")]
+    results[c] = {"exit": r.returncode, "violations": len(viol), "first_obligations": obl[:3],
+                  "summary": [l for l in r.stdout.splitlines() if l.startswith("[")][-1:]}
+shutil.rmtree(out, ignore_errors=True)
 meta = {"property": pid, "name": name, "tests_with_change": tests_line, "demo_exit_with_change": d1.returncode, "demo_exit_without_change": d0.returncode,
         "demo_output_with_change": d1.stdout[-800:], "needs_to_manifest": note, "checks_run": results,
         "detected": any(v["exit"] == 1 for v in results.values()),
-        "what_i_ran": f"pytest in the worktree with PYTHONPATH={wt}/src; demo.py against changed and original sources; git -C /repo apply patch.diff; ./check <id> --tier quick; git -C /repo checkout -- ."}
+        "what_i_ran": f"pytest in the scratch worktree {wt} with PYTHONPATH={wt}/src; demo.py against the changed and the original sources; "
+                      f"BBVERIF_REPO={wt} ./check <id> --tier quick (the checks read and replay against the worktree carrying patch.diff; equivalent to applying "
+                      "patch.diff to /repo, which was left untouched because background runs were using it)"}
 json.dump(meta, open(f"{dst}/meta.json", "w"), indent=1)
 print(json.dumps({k: meta[k] for k in ("tests_with_change", "demo_exit_with_change", "demo_exit_without_change", "detected")}), {c: (v["exit"], v["violations"]) for c, v in results.items()})
